@@ -100,9 +100,10 @@ _log_format_variables = {
     'asctime': 'atime',
     'msecs': 1.1,
     'relativeCreated': 1.1,
-    'thread': 1,
+    # thread and process identifiers are large numbers in real records
+    'thread': 0x7fffffffffff,
     'message': 'amessage',
-    'process': 1,
+    'process': 0x400000,
     'funcName': 'fname',
 }
 
@@ -201,6 +202,10 @@ class FormatterFactory:
             # since those aren't allowed when formatting with a mapping.
             #
             raise ValueError('%s formats cannot use positional placeholders')
+        except OverflowError as e:
+            # e.g. '%(thread)c': no character has such a code
+            raise ValueError('format cannot render an ordinary record: %s'
+                             % e)
 
         # The formatter class may validate the format string itself
         # (logging.Formatter does, and is stricter than the trial
